@@ -1,7 +1,6 @@
 (* C05 proofs, third part: the lazy accessors (Bam/Lazy.v, the lz_ slices of Bam/Decode.v) agree
-   with the eager decoder on every body that validate() accepts, and the only panic of a modelled
-   accessor on such a body is the unreachable!() of Cigar::iter on a CG array that is not a whole
-   number of 32-bit words. *)
+   with the eager decoder on every body that validate() accepts, and no modelled accessor panics
+   on such a body. *)
 From Coq Require Import List NArith ZArith Bool Lia ZifyBool ZifyNat ZifyN.
 From NV Require Import Bam.Record Bam.Encode Bam.Decode Bam.Lazy Bam.CodecProofs.
 Import ListNotations.
@@ -271,26 +270,35 @@ Qed.
 Lemma cigar_iter_words : forall src n, lenN src = 4 * n -> cigar_iter src = Some (chunk_ops src).
 Proof. intros src n H. unfold cigar_iter. destruct (lenN src mod 4 =? 0) eqn:E; [reflexivity|lia]. Qed.
 
-(* the one panic: placeholder kSmN and a first CG:B field whose raw bytes are not whole words *)
-Definition cg_not_words (bs : bytes) : Prop :=
-  is_placeholder bs (lz_cigar_raw bs) = true /\
-  exists buf, raw_cigar (length (lz_data_raw bs)) (lz_data_raw bs) = Some buf /\ lenN buf mod 4 <> 0.
+(* get_raw_cigar only ever returns a whole number of 32-bit words (a CG array of subtype I) *)
+Lemma raw_cigar_words : forall fuel bs buf, raw_cigar fuel bs = Some buf -> lenN buf mod 4 = 0.
+Proof.
+  induction fuel as [|fuel IH]; intros bs buf H; cbn [raw_cigar] in H; [discriminate H|].
+  destruct bs as [|t0 [|t1 [|ty r1]]]; try discriminate H.
+  destruct (ty =? tyB).
+  - destruct r1 as [|sub r2]; [discriminate H|].
+    destruct (sub_width sub) as [[w sg]|] eqn:Ew; [|discriminate H].
+    destruct (rdW 4 r2) as [[cnt r3]|]; [|discriminate H].
+    destruct (takeN (cnt * N.of_nat w) r3) as [[b r4]|] eqn:Et; [|discriminate H].
+    destruct (tag_eqb (t0, t1) CG); [|exact (IH _ _ H)].
+    destruct (sub =? tyI) eqn:Es; [|discriminate H]. injection H as H. subst b.
+    apply N.eqb_eq in Es. subst sub. change (sub_width tyI) with (Some (4%nat, false)) in Ew.
+    injection Ew as Ew _. subst w. destruct (takeN_spec _ _ _ _ Et) as (_ & _ & Hl). lia.
+  - destruct (num_width ty) as [[w sg]|].
+    + destruct (rdW w r1) as [[n r2]|]; [exact (IH _ _ H)|discriminate H].
+    + destruct ((ty =? tyZ) || (ty =? tyH)); [|discriminate H].
+      destruct (split_nul r1) as [[s r2]|]; [exact (IH _ _ H)|discriminate H].
+Qed.
 
-Lemma lazy_cigar_panic_iff : forall bs, validate bs = Ok tt ->
-  (lzp_cigar bs = None <-> cg_not_words bs).
+(* cigar().iter() never reaches a slice panic or the unreachable!() of Cigar::iter *)
+Lemma lazy_cigar_no_panic : forall bs, validate bs = Ok tt -> exists c, lzp_cigar bs = Some c.
 Proof.
   intros bs H. destruct (lazy_slices_ok bs H) as (_ & _ & Hc & _ & _ & Hd & Hl).
-  unfold lzp_cigar, cg_not_words. rewrite Hc, Hd.
-  rewrite (cigar_iter_words _ _ Hl).
-  destruct (is_placeholder bs (lz_cigar_raw bs)).
-  - destruct (raw_cigar (length (lz_data_raw bs)) (lz_data_raw bs)) as [buf|].
-    + unfold cigar_iter. destruct (lenN buf mod 4 =? 0) eqn:E; split.
-      * intros X. discriminate X.
-      * intros [_ (b & Hb & Hm)]. injection Hb as Hb. subst b. lia.
-      * intros _. split; [reflexivity|]. exists buf. split; [reflexivity|lia].
-      * intros _. reflexivity.
-    + split; [intros X; discriminate X|]. intros [_ (b & Hb & _)]. discriminate Hb.
-  - split; [intros X; discriminate X|]. intros [X _]. discriminate X.
+  unfold lzp_cigar. rewrite Hc, Hd. rewrite (cigar_iter_words _ _ Hl).
+  destruct (is_placeholder bs (lz_cigar_raw bs)); [|eauto].
+  destruct (raw_cigar (length (lz_data_raw bs)) (lz_data_raw bs)) as [buf|] eqn:Er; [|eauto].
+  pose proof (raw_cigar_words _ _ _ Er) as Hm. unfold cigar_iter.
+  destruct (lenN buf mod 4 =? 0) eqn:E; [eauto|lia].
 Qed.
 
 (* ---------- lazy = eager ---------- *)
